@@ -3,7 +3,7 @@ import LitexModel.Cdc.AsyncFifo
   Multi-clock models of Migen's `PulseSynchronizer` and of `litex/gen/genlib/cdc.py:BusSynchronizer`
   (width ≥ 2: request/acknowledge hand-shake with retry time-out; width 1: a bare `MultiReg`).
 
-  An instant has a rising edge of the input-domain clock (`ti`), of the output-domain clock (`to`), or both.
+  An instant has a rising edge of the input-domain clock (`ti`), of the output-domain clock (`tO`), or both.
   The first flop of every `MultiReg` whose source register changes in the same instant catches, bit by bit, the
   old or the new source value; the choice is an input (`mPing`, `mPong`: true = new; `mBuf`: bit mask).
 -/
@@ -33,7 +33,7 @@ deriving DecidableEq, Repr
 
 structure BSIn where
   ti    : Bool
-  to    : Bool
+  tO    : Bool
   mPing : Bool       -- `pingR1` catches the new `pingT` when it toggles in the same instant
   mPong : Bool       -- `pongR1` catches the new `pongT` when it toggles in the same instant
   mBuf  : Nat        -- per-bit: `ob1` catches the new `ibuf` bit when `ibuf` is loaded in the same instant
@@ -65,19 +65,19 @@ def countN (t : Nat) (s : BSState) : Nat :=
 def bsStep (w t : Nat) (s : BSState) (x : BSIn) : BSState :=
   { starter := if x.ti then false else s.starter
     pingT   := if x.ti then pingTN s else s.pingT
-    pongR1  := if x.ti then (if x.to && x.mPong then pongTN s else s.pongT) else s.pongR1
+    pongR1  := if x.ti then (if x.tO && x.mPong then pongTN s else s.pongT) else s.pongR1
     pongR2  := if x.ti then s.pongR1 else s.pongR2
     pongOR  := if x.ti then s.pongR2 else s.pongOR
     count   := if x.ti then countN t s else s.count
     ibuf    := if x.ti then ibufN w s x.i else s.ibuf
-    pingR1  := if x.to then (if x.ti && x.mPing then pingTN s else s.pingT) else s.pingR1
-    pingR2  := if x.to then s.pingR1 else s.pingR2
-    pingOR  := if x.to then s.pingR2 else s.pingOR
-    pingO   := if x.to then pingOut s else s.pingO
-    pongT   := if x.to then pongTN s else s.pongT
-    ob1     := if x.to then (if x.ti then mix x.mBuf s.ibuf (ibufN w s x.i) else s.ibuf) else s.ob1
-    ob2     := if x.to then s.ob1 else s.ob2
-    o       := if x.to then (if s.pingO then s.ob2 else s.o) else s.o }
+    pingR1  := if x.tO then (if x.ti && x.mPing then pingTN s else s.pingT) else s.pingR1
+    pingR2  := if x.tO then s.pingR1 else s.pingR2
+    pingOR  := if x.tO then s.pingR2 else s.pingOR
+    pingO   := if x.tO then pingOut s else s.pingO
+    pongT   := if x.tO then pongTN s else s.pongT
+    ob1     := if x.tO then (if x.ti then mix x.mBuf s.ibuf (ibufN w s x.i) else s.ibuf) else s.ob1
+    ob2     := if x.tO then s.ob1 else s.ob2
+    o       := if x.tO then (if s.pingO then s.ob2 else s.o) else s.o }
 
 def bsRun (w t : Nat) (s : BSState) : List BSIn → BSState
   | [] => s
@@ -102,8 +102,8 @@ structure BS1State where
 deriving DecidableEq, Repr
 
 /-- `i` is an input (it may change at any time); the first flop samples it at an o-edge. -/
-def bs1Step (s : BS1State) (to : Bool) (i : Bool) : BS1State :=
-  if to then { r1 := i, r2 := s.r1 } else s
+def bs1Step (s : BS1State) (tO : Bool) (i : Bool) : BS1State :=
+  if tO then { r1 := i, r2 := s.r1 } else s
 
 /-! ### PulseSynchronizer -/
 
@@ -116,7 +116,7 @@ deriving DecidableEq, Repr
 
 structure PSIn where
   ti : Bool
-  to : Bool
+  tO : Bool
   m  : Bool      -- `r1` catches the new `tog` when it toggles in the same instant
   i  : Bool      -- pulse input
 
@@ -127,8 +127,8 @@ def psOut (s : PSState) : Bool := s.r2 != s.tor
 def psStep (s : PSState) (x : PSIn) : PSState :=
   let togN := if x.i then !s.tog else s.tog
   { tog := if x.ti then togN else s.tog
-    r1  := if x.to then (if x.ti && x.m then togN else s.tog) else s.r1
-    r2  := if x.to then s.r1 else s.r2
-    tor := if x.to then s.r2 else s.tor }
+    r1  := if x.tO then (if x.ti && x.m then togN else s.tog) else s.r1
+    r2  := if x.tO then s.r1 else s.r2
+    tor := if x.tO then s.r2 else s.tor }
 
 end Litex.Cdc
